@@ -4,7 +4,7 @@ inherit "/script";
 int n_hb;
 int query_n_hb() { return n_hb; }
 
-void create() { seteuid(getuid()); rec("CREATE " + file_name(this_object())); }
+void create() { string cs; seteuid(getuid()); rec("CREATE " + file_name(this_object())); cs = master()->take_create_script(); if (cs) run(cs); }
 
 void heart_beat() {
   n_hb++;
@@ -12,6 +12,8 @@ void heart_beat() {
   hook("hb");
 }
 void init() { hook("init"); }
+int id(string s) { hook("id"); return 0; }
+void catch_tell(string s) { hook("catch_tell"); }
 void reset() { rec("RESET " + me()); hook("reset"); }
 int clean_up(int inh) { rec("CLEANUP " + me()); hook("clean_up"); return 1; }
 int move_or_destruct(object dest) { rec("MOD " + me()); hook("mod"); return 0; }
